@@ -32,8 +32,8 @@ def jsonable(x):
 
 def minimise(mod, case, signature, max_calls=600):
     """Greedy: drop transactions while a violation with the same signature remains."""
-    if "txs" not in case or not hasattr(mod, "replay"):
-        return case
+    if "txs" not in case or not hasattr(mod, "replay") or "variant" in case or "suffix" in case:
+        return case      # two-ledger cases are not minimised by dropping lines of one side
     txs = list(case["txs"])
     calls = 0
 
